@@ -1,4 +1,39 @@
-(* placeholder until the proofs are integrated *)
-From DictIO Require Import Chars Str Value Scalar.
-Theorem C12_placeholder : True. Proof. exact I. Qed.
-Print Assumptions C12_placeholder.
+(* C12  Comments survive read -> write (extraction and literal re-insertion), header, comments off. *)
+From Coq Require Import NArith ZArith List Bool.
+From DictIO Require Import Chars Str Value Scalar SDict Layout Lexer LayoutSpec LayoutProofs.
+Import ListNotations.
+
+(* a line comment is lifted out with its exact text, whatever characters it contains (quotes, braces, dollar,
+   backslashes ...), and replaced by one placeholder; the rest of the line is untouched *)
+Theorem C12_extract_line_comment : forall before rest nl count,
+  no_slash before -> no_colon_end before -> no_lf rest -> no_lf before -> line_end nl ->
+  let cmt := c_slash :: c_slash :: rest in
+  let k := counter_next count in
+  extract_line_comment true count (before ++ cmt ++ nl) =
+    (before ++ placeholder w_LINECOMMENT (Z.to_N k) ++ nl, k, Some (Z.to_N k, cmt)).
+Proof. exact extract_line_comment_spec. Qed.
+Print Assumptions C12_extract_line_comment.
+
+(* with comments switched off nothing of the comment remains in the line *)
+Theorem C12_comments_off : forall before rest nl count,
+  no_slash before -> no_colon_end before -> no_lf rest -> no_lf before -> line_end nl ->
+  fst (fst (extract_line_comment false count (before ++ c_slash :: c_slash :: rest ++ nl))) = before ++ nl.
+Proof. exact extract_line_comment_off. Qed.
+Print Assumptions C12_comments_off.
+
+(* re-insertion is literal: the placeholder pair is replaced by the comment text as it is (no template
+   interpretation), the surrounding text is kept *)
+Theorem C12_insert_literal : forall ph repl pre post ws fuel,
+  (match ph with c :: _ => has_char c pre = false | [] => False end) ->
+  (forall c, In c ph -> is_space c = false) -> (forall c, In c ws -> is_space c = true) -> ws <> [] ->
+  (length (pre ++ ph ++ ws ++ ph ++ [c_semi] ++ post) < fuel)%nat ->
+  exists post', fst (sub_ph_pair fuel ph repl (pre ++ ph ++ ws ++ ph ++ [c_semi] ++ post)) = pre ++ repl ++ post'.
+Proof. exact sub_ph_pair_literal. Qed.
+Print Assumptions C12_insert_literal.
+
+(* the default header is added exactly once *)
+Theorem C12_header_once : forall bc,
+  make_default_block_comment (make_default_block_comment bc) = make_default_block_comment bc /\
+  has_cpp_mark (make_default_block_comment bc) = true.
+Proof. exact default_header_once. Qed.
+Print Assumptions C12_header_once.
